@@ -2,9 +2,12 @@
 """Print the prompt for a seeded-change sub-agent (property text only, nothing from /verif)."""
 import json, sys
 pid = sys.argv[1]
+rnd = sys.argv[2] if len(sys.argv) > 2 else ""      # "2" for a second round: other worktree, three changes, mechanisms listed
 props = {json.loads(l)["id"]: json.loads(l) for l in open("/verif/properties.jsonl")}
 p = props[pid]
-wt = f"/tmp/seed_{pid}"
+wt = f"/tmp/seed{rnd}_{pid}"
+mech = "; ".join(f"{m['name']} ({m['where']})" for m in p["anchors"].get("mechanism", []))
+count, countset = ("THREE", "{1, 2, 3}") if rnd else ("TWO", "{1, 2}")
 print(f"""You are helping to evaluate a verification effort for the Python package irispie (a macroeconomic modeling package: model-language parser, algorithmic differentiation, first-order solver, Kalman filter, time series and date algebra). You have your own scratch git worktree of the repository at {wt} (package source under {wt}/src/irispie, tests under {wt}/tests, Python interpreter /venv/bin/python; to import the package from YOUR worktree put `import sys; sys.path.insert(0, "{wt}/src")` at the top of any script, and check `irispie.__file__` starts with {wt}). Work only inside {wt}. Do not touch /repo or /verif and do not read anything under /verif.
 
 Here is a semantic property of irispie that users rely on:
@@ -13,10 +16,12 @@ TITLE: {p['title']}
 STATEMENT: {p['statement']}
 QUANTIFIER: {p['quantifier']['text']}
 Code it is anchored in: {', '.join(p['anchors']['files'])}
+Mechanisms involved: {mech}
+Observed at: {', '.join(p['anchors'].get('observe_at', []))}
 
-Your job: produce TWO independent, realistic changes to the irispie source (each a small patch of the kind a maintainer could plausibly commit by mistake - a refactoring slip, an off-by-one, a wrong index/sign/transposition, a stale cache, a dropped special case, two sites that each look fine alone) such that each change BREAKS the property above while the package still imports and the existing test suite still passes. Prefer changes that need something specific to manifest (a particular multi-step sequence of operations, an unusual but valid input, a particular combination of options, a specific date/shape/ordering, two cooperating sites) rather than ones that every ordinary use would expose at once. The two changes should be different in kind and in location.
+Your job: produce {count} independent, realistic changes to the irispie source (each a small patch of the kind a maintainer could plausibly commit by mistake - a refactoring slip, an off-by-one, a wrong index/sign/transposition, a stale cache, a dropped special case, two sites that each look fine alone) such that each change BREAKS the property above while the package still imports and the existing test suite still passes. Prefer changes that need something specific to manifest (a particular multi-step sequence of operations, an unusual but valid input, a particular combination of options, a specific date/shape/ordering, two cooperating sites) rather than ones that every ordinary use would expose at once. The changes should be different in kind and in location (different mechanisms, different files where possible, and not all in the most obvious function); at least one should only show under a non-default option, an unusual model/data shape, or a particular sequence of calls.
 
-For each change i in {{1, 2}} create a directory {wt}/_seeded/{pid}_<short_slug>/ containing:
+For each change i in {countset} create a directory {wt}/_seeded/{pid}_<short_slug>/ containing:
   * patch.diff  - the change as a unified diff produced by `git -C {wt} diff` (paths relative to the repository root, applies with `git apply` to a clean checkout);
   * demo.py     - a small self-contained program (it must start with the sys.path line above but take the source root from the environment variable IRISPIE_SRC if set: `sys.path.insert(0, os.environ.get("IRISPIE_SRC", "{wt}/src"))`) that exercises the public API, prints what it observes and exits with status 1 when the property is violated and 0 when it holds: it must exit 1 with the change applied and 0 without it;
   * notes.md    - which part of the property the change breaks, what exactly is needed for it to manifest, and why the existing tests do not notice.
